@@ -21,6 +21,9 @@ func lookupIntrinsic(fn *ssa.Function) intrinsic {
 	if h, ok := intrinsics[name]; ok {
 		return h
 	}
+	if h, ok := utf8Intrinsics[name]; ok {
+		return h
+	}
 	if fn.Pkg == nil && fn.Origin() != nil {
 		// instantiated generic: match on origin
 		if h, ok := intrinsics[fn.Origin().String()]; ok {
